@@ -41,10 +41,13 @@ var helloModes = []string{"buffered", "late-goroutine", "two-halves"}
 var cancelModes = []string{"immediately", "after-gosched", "racing-goroutine", "deadline-expiry", "never"}
 
 // watchersAlive counts goroutines that still have a frame of NewConn's closure.
+var stackBuf = sync.Pool{New: func() any { b := make([]byte, 256<<10); return &b }}
+
 func watchersAlive() int {
-	buf := make([]byte, 1<<20)
-	n := runtime.Stack(buf, true)
-	return strings.Count(string(buf[:n]), "ech.NewConn.func")
+	bp := stackBuf.Get().(*[]byte)
+	defer stackBuf.Put(bp)
+	n := runtime.Stack(*bp, true)
+	return bytes.Count((*bp)[:n], []byte("ech.NewConn.func"))
 }
 
 func TestCheck(t *testing.T) {
@@ -70,7 +73,7 @@ func TestCheck(t *testing.T) {
 	app := tlswire.Record(23, 0x0303, []byte("ping-after-newconn"))
 	keys := []ech.Key{k.TLSKey()}
 
-	per := r.N(60, 4000) // trials per (procs, hello, cancel, load) cell
+	per := r.N(60, 1500) // trials per (procs, hello, cancel, load) cell
 	procsList := []int{1, 2, 4, 8, 16}
 	if os.Getenv("VERIF_C10_PART") == "race" {
 		per = r.N(40, 400)
